@@ -274,7 +274,7 @@ def rewrite_loops(body, log, fname, slice_map=None):
                 i_, b_, x_ = m.groups()
                 inner2 = add_increment_before_continue(inner, '%s += 1;' % i_)
                 new = ('let mut %s: usize = 0;\n while %s < %s.len() /*@LOOPHEAD*/ {\n let %s = &%s[%s];\n%s\n %s += 1;\n }'
-                       % (i_, i_, x_, b_, x_, i_, inner2, i_))
+                       % (i_, i_, x_, b_, x_, i_, close_stmt(inner2), i_))
                 body = body[:kpos] + new + body[cpos + 1:]
                 log.append('R1 %s: `%s`' % (fname, hn))
                 changed = True
@@ -285,7 +285,7 @@ def rewrite_loops(body, log, fname, slice_map=None):
                 i_, a_, b_ = m.groups()
                 inner2 = add_increment_before_continue(inner, '%s += 1;' % i_)
                 new = ('let mut %s = %s;\n while %s < %s /*@LOOPHEAD*/ {\n%s\n %s += 1;\n }'
-                       % (i_, a_, i_, b_, inner2, i_))
+                       % (i_, a_, i_, b_, close_stmt(inner2), i_))
                 body = body[:kpos] + new + body[cpos + 1:]
                 log.append('R7 %s: `%s` (contains continue)' % (fname, hn))
                 changed = True
@@ -303,7 +303,7 @@ def rewrite_loops(body, log, fname, slice_map=None):
             m = re.match(r'for (\w+) in (.+?)\.iter_mut\(\)$', hn)
             if m:
                 v_, x_ = m.groups()
-                k = len(re.findall(r'\bverif_k\d+\b', body))
+                k = len(set(re.findall(r'\bverif_k\d+\b', body)))
                 idx = 'verif_k%d' % k
                 m2 = re.match(r'(.+)\[(\w+)\.\.\]$', x_)
                 if m2:
@@ -319,7 +319,7 @@ def rewrite_loops(body, log, fname, slice_map=None):
                 if not ok:
                     raise ToolLimit('R2m: body of `%s` in %s uses the element in an unsupported way' % (hn, fname))
                 new = ('let mut %s: usize = %s;\n while %s < %s /*@LOOPHEAD*/ {\n%s\n %s += 1;\n }'
-                       % (idx, init, idx, lim, inner2, idx))
+                       % (idx, init, idx, lim, close_stmt(inner2), idx))
                 body = body[:kpos] + new + body[cpos + 1:]
                 log.append('R2 %s: `%s`' % (fname, hn))
                 changed = True
@@ -331,7 +331,7 @@ def rewrite_loops(body, log, fname, slice_map=None):
                 k = len(set(re.findall(r'\bverif_k\d+\b', body)))
                 idx, sl = 'verif_k%d' % k, 'verif_sl%d' % k
                 new = ('let %s = %s;\n let mut %s: usize = 0;\n while %s < %s.len() /*@LOOPHEAD*/ {\n let (%s, %s) = %s[%s];\n%s\n %s += 1;\n }'
-                       % (sl, slice_map[x_], idx, idx, sl, a_, b_, sl, idx, inner, idx))
+                       % (sl, slice_map[x_], idx, idx, sl, a_, b_, sl, idx, close_stmt(inner), idx))
                 body = body[:kpos] + new + body[cpos + 1:]
                 log.append('R4 %s: `%s` iterated by index through `%s`' % (fname, hn, slice_map[x_]))
                 changed = True
@@ -351,12 +351,18 @@ def rewrite_loops(body, log, fname, slice_map=None):
                 if 'continue' in mask_noncode(inner):
                     inner = add_increment_before_continue(inner, '%s += 1;' % idx)
                 new = (pre + 'let mut %s: usize = 0;\n while %s < %s.len() /*@LOOPHEAD*/ {\n let %s = &%s[%s];\n%s\n %s += 1;\n }'
-                       % (idx, idx, x_, v_, x_, idx, inner, idx))
+                       % (idx, idx, x_, v_, x_, idx, close_stmt(inner), idx))
                 body = body[:kpos] + new + body[cpos + 1:]
                 log.append('R2 %s: `%s`' % (fname, hn))
                 changed = True
                 break
     return body
+
+
+def close_stmt(inner):
+    """the loop body's last statement may be a trailing expression without `;`: terminate it before the increment is appended"""
+    t = inner.rstrip()
+    return inner if (not t or t.endswith(';')) else t + ';'
 
 
 def add_increment_before_continue(inner, inc):
